@@ -120,6 +120,12 @@ class Build:
             return Constant(cval(r[1], self.val))
         if k == "num":  # a raw python number operand (exercises _ensure_expr)
             return cval(r[1], self.val)
+        if k == "pdup":
+            # ANOTHER Parameter object with the same optyx name r[1] (own value under the valuation key 'name#k')
+            key = f"{r[1]}#{r[2]}"
+            if key not in self.params:
+                self.params[key] = Parameter(r[1], self.val[key])
+            return self.params[key]
         if k == "param":
             if r[1] not in self.params:
                 vp = getattr(self, "vparam_names", None)
@@ -410,6 +416,8 @@ class Ref:
             return cval(r[1], self.val)
         if k == "param":
             return self.get(r[1])
+        if k == "pdup":
+            return self.get(f"{r[1]}#{r[2]}")
         if k == "bin":
             a, b = self.S(r[2]), self.S(r[3])
             op = r[1]
@@ -697,6 +705,8 @@ def free_names(r, acc=None):
             c(r[1])
         elif k == "param":
             add("params", r[1])
+        elif k == "pdup":
+            add("params", f"{r[1]}#{r[2]}")
         elif k == "vec":
             if r in decl:
                 return
